@@ -38,6 +38,10 @@ func newVerifier(repo string, overlays []string, tier string) (*Verifier, error)
 			return nil, err
 		}
 		V.overlay[kv[0]] = b
+		if V.overlayFiles == nil {
+			V.overlayFiles = map[string]string{}
+		}
+		V.overlayFiles[kv[0]] = kv[1]
 	}
 	V.timeout = 10
 	if tier == "thorough" {
